@@ -175,3 +175,17 @@ func TestGrid(t *testing.T) {
 	}
 	core.ExhaustiveDone("size grid 1..40 x 1..40, one generated configuration and noise content per cell", 1600)
 }
+
+// TestBig: the free generator's cases at sizes where a dimension or the sample count crosses a
+// power of two (255..257, 511..513, 1023..1025, 4095..4097 with a short other side; both sides
+// 250..300, i.e. more than 2^16 samples).
+func TestBig(t *testing.T) {
+	g := rapid.Custom(func(t *rapid.T) *Case {
+		c := Gen(t)
+		d := gen.BigGeometry().Draw(t, "big")
+		c.Img.Resize(d[0], d[1])
+		c.Cfg.TileW, c.Cfg.TileH = 0, 0
+		return c
+	})
+	core.RunSharded(t, ID, 24, 600, g, Check)
+}
